@@ -316,6 +316,30 @@ def proxyHeader (clientAddr clientPort serverAddr serverPort : List Char) : List
   "PROXY ".toList ++ (if isIPv4Text clientAddr then "TCP4".toList else "TCP6".toList) ++ [' '] ++
   clientAddr ++ [' '] ++ serverAddr ++ [' '] ++ clientPort ++ [' '] ++ serverPort ++ ['\r', '\n']
 
+/-! ## The assumed socket contract
+
+The tunnel machine below delivers what a copy direction has written (`fwdC2U`/`fwdU2C` append to `upSaw`/
+`clSaw` at once) and lets `finish` close both connections without touching what was delivered. That is the
+contract of an ordinary TCP socket *as the handlers use it*, and it is an assumption of every theorem about
+the machine:
+
+* **Close is orderly.** `Close()` on a connection with default options queues a FIN *behind* the data
+  already accepted by `Write`; the peer reads all of that data and then EOF. (With `SO_LINGER = 0`, or when the
+  closing side has unread data, the kernel sends RST instead and queued data is discarded — outside the model.)
+* **Writes are not time-bounded.** A `Write` on the outbound connection blocks until the data is accepted; no
+  deadline makes a later write fail.
+* Consequently the tunnel handlers must not set linger, deadlines, buffer sizes, keep-alive options or
+  half-close a connection. `Props/C09Facts.lean` (`no_socket_options_in_tunnel_handlers`) pins the complete list
+  of such calls in `tcp_proxy.go`, `sni_proxy.go`, `tcp_dynamic_proxy.go`, `proxy_proto.go`, `copy_buffer.go`
+  (none), in `ws_handler.go` (the 1 s read deadline around the handshake read, cleared before the copy phase)
+  and the shape of `server.go`'s `conn` wrapper (per-call read/write deadlines only when `ReadTimeout`/
+  `WriteTimeout` are configured; the streams run with the default 0). The streams `c09.tunnel`/`c09.ws` exercise
+  the contract on sockets: a large final burst towards a slowly reading upstream followed by the client's
+  close, and client data sent long after the configured dial timeout. -/
+
+/-- Do the tcp tunnel handlers touch socket options, deadlines or half-close (pinned by `C09Facts`)? -/
+def tunnelHandlersTouchSocketOptions : Bool := false
+
 /-! ## The two-direction tunnel as a state machine -/
 
 /-- How the proxy reacts when one copy direction finishes. `firstEnds`: the code (`err = <-errc`, return,
